@@ -151,7 +151,7 @@ def run_case(case):
         outs = []
         _HARVEST.clear()
         for j in range(case.get("repeats", 6)):
-            c2 = dict(case, score_seed=j, gap=[0.0, 0.1, 0.3, 0.5, 1.0, 0.3][j % 6], mms=[1, 2, 3][j % 3])
+            c2 = dict(case, score_seed=j, gap=[0.0, 0.1, 0.3, 0.5, 2.0, 1.5][j % 6], mms=[1, 2, 3][j % 3])
             outs.append((c2, _run_case(c2)))
         _HARVEST.clear()
         return {"multi": outs}
@@ -184,7 +184,8 @@ def _run_case(case):
                         pass
                 _HARVEST["rec"] = rec1
             if rec1.cn and rec1.solve_calls:
-                stubs = e2e.ScoreStubs(rec1, random.Random(case["seed"] + 7 + 1000 * case.get("score_seed", 0)))
+                stubs = e2e.ScoreStubs(rec1, random.Random(case["seed"] + 7 + 1000 * case.get("score_seed", 0)),
+                                       designed=(case["gap"] if case.get("score_seed", 0) in (4, 5) and case["gap"] > 1.1 else False))
             else:
                 out["early"] = True
                 return out
